@@ -169,7 +169,10 @@ def set_matched_filter(tokens, termset):
              token should be highlighted
     """
     for t in tokens:
-        t.matched = t.text in termset
+        # The text is re-analysed with removestops=False: a stopped token was
+        # never indexed, so it is not a match even if its text equals a query
+        # term (e.g. a stop word that is also the stem of another word)
+        t.matched = t.text in termset and not t.stopped
         yield t
 
 
